@@ -855,3 +855,30 @@ def _explicit_panic(it, st, args, ctx):
     except Exception:
         pass
     return [(st, Panic(msg, ctx.fn.name if ctx.fn else ''))]
+
+
+# ---------------------------------------------------------------------------
+# std::mem
+
+
+@summary(r'^(std|core)::mem::replace::<')
+def _mem_replace(it, st, args, ctx):
+    old = it.load(st, args[0])
+    it.store(st, args[0], args[1])
+    return old
+
+
+@summary(r'^(std|core)::mem::take::<')
+def _mem_take(it, st, args, ctx):
+    old = it.load(st, args[0])
+    ty = re.search(r'mem::take::<(.*)>$', ctx.callee).group(1)
+    it.store(st, args[0], default_value(it, ty))
+    return old
+
+
+@summary(r'^(std|core)::mem::swap::<')
+def _mem_swap(it, st, args, ctx):
+    a, b = it.load(st, args[0]), it.load(st, args[1])
+    it.store(st, args[0], b)
+    it.store(st, args[1], a)
+    return UNIT
